@@ -3,6 +3,7 @@ mod api;
 mod ast;
 mod canon;
 mod db;
+mod features;
 mod gen;
 mod parse;
 
